@@ -465,7 +465,16 @@ def snapshot_provenance(run, model, rule):
                         if isinstance(p.ast, ast.Name):
                             # an explanatory temporary: look at what it was bound to
                             exprs = [st.value for st in ast.walk(fi.node) if isinstance(st, ast.Assign) and any(isinstance(tg, ast.Name) and tg.id == p.ast.id for tg in st.targets)] or [p.ast]
-                        if not all(any(isinstance(c, ast.Compare) and any(isinstance(o, ast.Is) for o in c.ops) for c in ast.walk(e)) for e in exprs):
+                        def by_identity(e):
+                            for c in ast.walk(e):
+                                if isinstance(c, ast.Compare) and any(isinstance(o, ast.Is) for o in c.ops):
+                                    return True
+                                # ``id(snap) in <set of ids>``: identity through id()
+                                if isinstance(c, ast.Compare) and len(c.ops) == 1 and isinstance(c.ops[0], ast.In) and isinstance(c.left, ast.Call) and isinstance(c.left.func, ast.Name) and c.left.func.id == "id":
+                                    return True
+                            return False
+
+                        if not all(by_identity(e) for e in exprs):
                             bad = "a snapshot is skipped under `%s`: only the very same snapshot object reached along several inheritance paths may be skipped, an equally named different snapshot is a conflict" % tt
         # diamond: the very same snapshot object collected along two inheritance paths is not a conflict
         ident = False
@@ -604,8 +613,16 @@ def namespace_rebind_rule(run, model, rule):
     elif found is None:
         bad = "the decorator stack of the namespace's function is not searched for a checker"
     else:
+        # the test may be on a local that is `None or the checker found` (the helper returned a tuple of defaults)
+        def nonnull(t):
+            if t[0] == "phi":
+                rest = [x for x in t[1] if x != ("const", "None")]
+                return rest[0] if len(rest) == 1 else t
+            return t
+
+        atoms = set(a for (nid, k), (kn, ats) in gg.edge_facts.items() for a, pol in kn if nonnull(a) == found) or {found}
         for st in stores:
-            if not gg.necessary([flow.cfg.entry], [st.id], (found, False)):
+            if not any(gg.necessary([flow.cfg.entry], [st.id], (a, False)) for a in atoms):
                 bad = "the namespace entry is re-bound although a checker was found on the function's decorator stack: decorators stacked above the contracts (e.g. a functools.wraps decorator) are dropped from the class"
             val = flow.term(st.ast.value, st)
     run.check(bad is None, rule, nf.fi.qual, "namespace[key] is replaced only if no checker was found (then by the new checker, re-wrapped as static/class method where needed)", bad or "", nf.fi.loc(stores[0]) if stores else nf.fi.loc(), None, first_line(stores[0].stmt) if stores else None)
